@@ -155,7 +155,7 @@ func c04drain(c *an.Ctx) {
 				return false
 			}
 			f := an.StaticCallee(ci)
-			return f != nil && f.Name() == "PeekAndShift"
+			return f != nil && an.BaseName(f) == "PeekAndShift"
 		}
 		q := &an.PathQ{Fn: fn, StartAfter: puts, Sink: an.IsReturn, Cut: isPeek}
 		w, f := q.Find()
@@ -223,7 +223,7 @@ func c07ownstack(c *an.Ctx) {
 				return
 			}
 			f := an.FieldOf(fa)
-			isCtor, watched := ctor[f.Name()]
+			isCtor, watched := ctor[an.FName(f)]
 			if !watched || !fieldOfNamed(fa, "clientV2") {
 				return
 			}
@@ -282,7 +282,7 @@ func c13pubcounts(c *an.Ctx) {
 			return
 		}
 		fa, ok := st.Addr.(*ssa.FieldAddr)
-		if !ok || an.FieldOf(fa).Name() != "Count" || !fieldOfNamed(fa, "PubCount") {
+		if !ok || an.FName(an.FieldOf(fa)) != "Count" || !fieldOfNamed(fa, "PubCount") {
 			return
 		}
 		n++
